@@ -30,7 +30,7 @@ PROPS = {
     "C10": {
         "rules": [r_panic.run, r_panic.run_errprop, r_panic.run_narrow_arith,
                   kind_scope("dictionary::connector", "dictionary::mapper", "dictionary::unknown", "dictionary::lexicon"), r_cand.unkcover,
-                  r_panic.run_tok, r_map.verifystrict],
+                  r_panic.run_tok, r_map.verifystrict, r_scorer.rawbuild, r_char.packguard],
         "explanation": "PANIC: every potential panic or silent-wrap site (assert terminators for "
                        "bounds/overflow/division/shift, calls to unwrap/expect/panic!/assert!/"
                        "indexing/copy_from_slice/chunks/..., narrowing `as` casts) in the "
@@ -58,7 +58,7 @@ PROPS = {
     },
     "C11": {
         "rules": [r_fmt.lexicon_rows_reader, r_feat.run, r_feat.rawinput, r_feat.csvdefault, r_misc.lexmap_shape, r_token.dispatch,
-                  r_misc.parallel,
+                  r_misc.parallel, r_char.packguard,
                   kind_scope("dictionary::lexicon", "dictionary::unknown")],
         "explanation": "FMT(reader side): parse_csv stores CSV column 1, 2, 3 into left_id, "
                        "right_id, word_cost (column -> WordParam::new parameter -> field, KIND "
@@ -170,7 +170,7 @@ PROPS = {
     "C12": {
         "rules": [r_misc.lattice_shape, r_misc.spaceopt, r_viterbi.traceback,
                   kind_scope("tokenizer", "unknown"), r_cand.cand, r_cand.charrange,
-                  r_misc.optkeep_tokenizer, r_reset.run_tokens, r_char.run],
+                  r_misc.optkeep_tokenizer, r_reset.run_tokens, r_char.run, r_cand.unkspans],
         "explanation": "LATTICE: build_lattice_inner resets first, tests reachability, SPACE "
                        "membership and the skipped run at start_node, adds candidates with "
                        "(start_node, start_word), connects EOS from start_node on every path; "
@@ -184,7 +184,7 @@ PROPS = {
     },
     "C13": {
         "rules": [r_reset.run_counts, r_viterbi.pred, r_misc.enumall, r_misc.sortcmp, r_fmt.mapping_files,
-                  kind_scope("mapper", "worker", "lattice", "dictionary::connector"), r_kind.bins("map-bin")],
+                  kind_scope("mapper", "worker", "lattice", "dictionary::connector", "dictionary::Dictionary"), r_kind.bins("map-bin")],
         "explanation": "RESET(W2, counts scope): update_connid_counts reads only a lattice that "
                        "the current reset_sentence/tokenize refreshed (or returns for an empty "
                        "sentence); PRED: each counted (right word, left word) pair takes the left "
@@ -244,7 +244,7 @@ PROPS = {
     },
     "C03": {
         "rules": [r_cand.cand, r_cand.unkfall, r_cand.unkgroup, r_cand.unkspans, r_cand.charrange,
-                  r_reset.run_tokens, r_misc.optkeep_tokenizer, r_char.run, r_map.run_user,
+                  r_reset.run_tokens, r_misc.optkeep_tokenizer, r_char.run, r_map.run_user, r_char.packguard,
                   kind_scope("dictionary::unknown", "tokenizer")],
         "explanation": "CAND: at every processed position both lexicons are searched over the "
                        "same remaining text, every match is inserted and sets has_matched, and "
@@ -260,7 +260,8 @@ PROPS = {
     },
     "C08": {
         "rules": [r_map.run_user, r_map.run_compose, r_map.verifystrict, r_cand.cand, r_token.dispatch,
-                  kind_scope("dictionary::lexicon", "dictionary::Dictionary", "dictionary::connector")],
+                  kind_scope("dictionary::lexicon", "dictionary::Dictionary", "dictionary::connector"),
+                  r_misc.optkeep_dictionary],
         "explanation": "MAPKEEP: a user lexicon is translated by the stored mapper, then verified "
                        "against the dictionary's connector (failure returns Err), then installed; "
                        "None clears; replace not merge; only verified installation points write "
@@ -324,7 +325,7 @@ PROPS = {
         "level_note": "Trusted: bincode/bincode_derive; rucrf's derived impls.",
         "technique": "sibling cross-check of encoder/decoder MIR",
     },    "C06": {
-        "rules": [r_map.run, r_scorer.rowrange, kind_scope("dictionary::connector", "dictionary::mapper", "dictionary::unknown", "dictionary::lexicon"), r_kind.bins("map-bin"),
+        "rules": [r_map.run, r_scorer.rowrange, kind_scope("dictionary::connector", "dictionary::mapper", "dictionary::unknown", "dictionary::lexicon", "dictionary::Dictionary"), r_kind.bins("map-bin"),
                   r_misc.optkeep_dictionary],
         "explanation": "MAP rules over the MIR of Dictionary::map_connection_ids_from_iter, "
                        "reset_user_lexicon_from_reader and every map_connection_ids method: the "
@@ -367,7 +368,7 @@ PROPS = {
                      "rule, branch-correlation rules, kind propagation",
     },
     "C04": {
-        "rules": [r_reset.run_tokens, r_share.run],
+        "rules": [r_reset.run_tokens, r_share.run, r_misc.optkeep_tokenizer],
         "thorough": [r_share.run_thorough],
         "explanation": "RESET: typestate dataflow (Dirty/Clean per persistent Worker buffer) over "
                        "the MIR of every Worker entry point and token observer, for every "
@@ -497,8 +498,12 @@ for _p, (_t, _k) in _ADDED.items():
         PROPS[_p]["technique"] += ", " + _k
 
 _ADDED2 = {
-    "C03": "MAPKEEP (user-lexicon installation): every successful return of reset_user_lexicon_from_reader has assigned data.user_lexicon and a None reader stores None, so a cleared user lexicon contributes no candidates.",
-    "C08": "MAPKEEP reset clauses: every Ok exit of reset_user_lexicon_from_reader assigns data.user_lexicon; with a None reader the only value assigned is None.",
+    "C03": "PACK as for C11 (the packed character record). CHARKEY: char_info indexes the table by the whole code point. MAPKEEP (user-lexicon installation): every successful return of reset_user_lexicon_from_reader has assigned data.user_lexicon and a None reader stores None, so a cleared user lexicon contributes no candidates.",
+    "C11": "RAWINPUT (second level): library functions hand their caller's reader to Lexicon::from_reader / UnkHandler::from_reader unchanged. PACK: every value packed into a shared integer (`a | b << s`) is known to fit the gap up to the next field (type, mask, or a rejecting comparison on every path) - a (posting offset, homograph count) pair packed without a bound on the count would lose homographs.",
+    "C10": "PACK as for C11: CharInfo::new rejects every value that does not fit its bit field. RAWBUILD (FTSMAX): the row width is folded over both bigram files.",
+    "C04": "OPTKEEP / OPTSET: the Tokenizer option setters return their receiver, and a field a setter assigns on one path it assigns on every successful path, so the options in force are a function of the last call's arguments and not of the history of option calls.",
+    "C12": "OPTSET as for C04 (ignore_space / max_grouping_len). UNKSPAN: a prefix candidate is skipped on account of the sentence length only when it would end beyond the last character, so a sentence-final word has the candidates it has in front of a space run.",
+    "C08": "OPTSET as for C04, over the Dictionary's by-value methods. MAPKEEP reset clauses: every Ok exit of reset_user_lexicon_from_reader assigns data.user_lexicon; with a None reader the only value assigned is None.",
     "C05": "LANES: U31x8::encode writes lanes 0..7 in order in both build configurations.",
     "C07": "ACCUM (portable and AVX2 builds): accumulate_cost pairs keys1[i] with keys2[i] through plain zips (no skip/rev/take), starts at zero and only adds lookup results; the AVX2 build sums lanes 0..7 once each. SCORERCHK (AVX2) also requires base = bases[key1] gathered under key1 < bases_len, zero for masked-out lanes and the 4-byte gather scale. LANES as for C05. CSVROW as for C17 (cells of bigram.right/left lines). KIND over compile's main: the readers opened from --bigram-right-in / --bigram-left-in reach the builder parameters of their own side.",
     "C06": "KIND over map's main: the list read from *.lmap is the left mapping argument and *.rmap the right one.",
